@@ -19,5 +19,5 @@ echo "--- demo without the change (must PASS):"
 cd /repo && git diff --quiet || { echo "/repo dirty"; exit 2; }
 git apply "$P" || { echo "patch does not apply to /repo"; exit 2; }
 echo "--- check $ID $TIER with the change applied to /repo:"
-/verif/check $ID $TIER 2>&1 | grep -E "^(VIOLATION|KNOWN|BUILD|C[0-9]+ (quick|thorough))" | head -6
+/verif/check $ID $TIER 2>&1 | grep -a -E "^(VIOLATION|KNOWN|BUILD|C[0-9]+ (quick|thorough))" | head -6
 git checkout -- . ; git status --short | head -3
